@@ -29,7 +29,7 @@
 //@ end
 //@ fn src/bank.rs :: BankKeeper :: burn
 //@   ret r
-//@   ensures [C09.burn.sem] (r is Ok, final(bank_storage).view()) == ({ let x = burn_w(old(bank_storage).view(), from_address, amount@); (x.0 is Ok, x.1) })
+//@   ensures [C09.burn.sem,C05] (r is Ok, final(bank_storage).view()) == ({ let x = burn_w(old(bank_storage).view(), from_address, amount@); (x.0 is Ok, x.1) })
 //@ end
 //@ fn src/bank.rs :: BankKeeper :: mint
 //@   ret r
@@ -37,7 +37,7 @@
 //@ end
 //@ fn src/bank.rs :: BankKeeper :: send
 //@   ret r
-//@   ensures [C09.send.burn_then_mint] (r is Ok, final(bank_storage).view()) == ({ let x = send_w(old(bank_storage).view(), from_address, to_address, amount@); (x.0 is Ok, x.1) })
+//@   ensures [C09.send.burn_then_mint,C05] (r is Ok, final(bank_storage).view()) == ({ let x = send_w(old(bank_storage).view(), from_address, to_address, amount@); (x.0 is Ok, x.1) })
 //@ end
 //@ fn src/bank.rs :: BankKeeper :: init_balance
 //@   ret r
@@ -98,7 +98,7 @@ impl Bank for BankKeeper {}
     }
 //@ fn src/bank.rs :: Module for BankKeeper :: execute
 //@   ret r
-//@   ensures [C09.exec.sem,C04,C17] (r, final(storage).view()) == self.exec_sem(_router, old(storage).view(), *_block, sender, msg)
+//@   ensures [C09.exec.sem,C04,C05,C17] (r, final(storage).view()) == self.exec_sem(_router, old(storage).view(), *_block, sender, msg)
 //@   begin broadcast use {axiom_vec_canon, axiom_vec_of_view, axiom_str_canon, axiom_str_of_view, lemma_str_ext_b, lemma_vec_ext_b}; proof { lemma_splice_same(storage.view(), lp(ns_bank())); }
 //@   replace? "other => unimplemented!()," => ""
 //@   replace? "..Default::default()" => "data: None"
